@@ -57,6 +57,7 @@ func stdUniverse() *universe {
 			{name: "cid.{cid}.m", kind: 'm'}, {name: "m.pq", kind: 'm'},
 			{name: long, kind: 'm'},
 			// leaves used by the reference burst of profile throttle (never picked at random)
+			{name: "c.n", kind: 'c'}, {name: "m.n1", kind: 'm'}, {name: "m.n2", kind: 'm'},
 			{name: "m.l1", kind: 'm'}, {name: "m.l2", kind: 'm'}, {name: "m.l3", kind: 'm'}, {name: "m.l4", kind: 'm'}, {name: "m.l5", kind: 'm'},
 		},
 		norm: map[string]string{"q=a": "q=n1", "q=b": "q=n1", "q=c": "q=n2", "q=n1": "q=n1", "q=n2": "q=n2"},
@@ -65,6 +66,7 @@ func stdUniverse() *universe {
 			"m.self": "k1=r:m.self,k2=p1", "c.a": "p1,r:m.b,r:m.b,p2", "c.b": "r:c.a,r:m.c,s:m.a",
 			"m.r2e": "k1=r:m.err,k2=p4", "q.m?q=n1": "k1=p1", "q.m?q=n2": "k1=p2,k2=r:m.b", "q.c?q=n1": "p1,p2",
 			"q.c?q=n2": "p3", "cid.{cid}.m": "k1=p9", long: "k1=p1", "m.pq": "k1=p1,k2=r:m.b",
+			"c.n": "p1", "m.n1": "k1=r:m.l1,k2=p1", "m.n2": "k1=r:m.l2,k2=r:m.l3",
 			"m.l1": "k1=p1", "m.l2": "k1=p2", "m.l3": "k1=p3", "m.l4": "k1=p4", "m.l5": "k1=p5",
 		},
 	}
@@ -353,6 +355,9 @@ func (g *gen) answerOne(r *mockReq, drain bool) {
 	switch kind {
 	case "access":
 		l, d, e := g.accessAnswer(drain)
+		if !drain {
+			l, d = g.withMeta(r, l, d)
+		}
 		w.answer(r, l, d, e)
 	case "get":
 		if !drain && g.r.chance(g.p.getFailPct, 100) {
@@ -395,7 +400,32 @@ func (g *gen) answerOne(r *mockReq, drain bool) {
 			if g.r.chance(1, 10) {
 				rid = "m.*"
 			}
-			w.answer(r, "resource:"+rid, []byte(fmt.Sprintf(`{"resource":{"rid":%q}}`, rid)), nil)
+			l, d := "resource:"+rid, []byte(fmt.Sprintf(`{"resource":{"rid":%q}}`, rid))
+			if !drain {
+				l, d = g.withMeta(r, l, d)
+			}
+			w.answer(r, l, d, nil)
+			return
+		}
+		if isHTTPReq(r) {
+			// answers to an HTTP POST: result, null result, error, each possibly with a meta status
+			var l string
+			var d []byte
+			switch g.r.intn(6) {
+			case 0:
+				l, d = "err:system.methodNotFound", []byte(errJSON(reserr.CodeMethodNotFound))
+			case 1:
+				w.answer(r, "timeout", nil, mq.ErrRequestTimeout)
+				return
+			case 2:
+				l, d = "result:pnull", []byte(`{"result":null}`)
+			default:
+				l, d = fmt.Sprintf("result:p%d", g.callN), []byte(fmt.Sprintf(`{"result":%d}`, g.callN))
+			}
+			if !drain {
+				l, d = g.withMeta(r, l, d)
+			}
+			w.answer(r, l, d, nil)
 			return
 		}
 		switch g.r.intn(6) {
@@ -433,7 +463,7 @@ func (g *gen) answerOne(r *mockReq, drain bool) {
 			// answers a service must not give: none may crash the gateway or change anything
 			bad := pick(g.r, []string{`{"result":{"events":[null]}}`, `{"result":{"events":[{"event":"change"}]}}`, `{"result":{"events":[{"event":"add","data":{"idx":99,"value":1}}]}}`,
 				`{"result":{"events":[1]}}`, `{"result":{"events":{}}}`, `{"result":{"model":{"a":{"x":1}}}}`, `{"result":{"model":{},"events":[]}}`, `not json`, `{"result":null}`,
-				`{"result":{"events":[{"event":"","data":null}]}}`, `{"result":{"events":[{"data":{}}]}}`, `{"result":{"events":[{"event":"remove","data":{"idx":-1}}]}}`,
+				`{"result":{"events":[{"event":"remove","data":{"idx":-1}}]}}`,
 				`{"result":{"collection":[{"rid":""}]}}`, `{"result":{"events":[{"event":"change","data":{"values":{"a":{"rid":"m..a"}}}}]}}`, `{"result":{"events":[null,null]}}`})
 			w.answer(r, "malformed:"+hx(bad), []byte(bad), nil)
 			return
@@ -645,8 +675,44 @@ func (g *gen) httpGet() {
 	if g.r.chance(1, 12) {
 		path = pick(g.r, []string{"/api/m/a/", "/api/m.a", "/api/m//a", "/api/m/%2a", "/api/m/a%20b", "/api/", "/api/m/*"})
 	}
-	g.kinds["http:get"]++
-	g.w.httpGet(path, query)
+	switch g.r.intn(10) {
+	case 0:
+		g.kinds["http:head"]++
+		g.w.httpDo("HEAD", path, query, "")
+	case 1, 2, 3:
+		action := pick(g.r, []string{"set", "x", "se", "get", "a*", ""})
+		body := pick(g.r, []string{`{"v":1}`, "", `[1,2]`, `null`, ` {"v": 2} `})
+		g.kinds["http:post"]++
+		g.w.httpDo("POST", path+"/"+action, query, body)
+	default:
+		g.kinds["http:get"]++
+		g.w.httpGet(path, query)
+	}
+}
+
+// isHTTPReq: the request was made for an HTTP request (temporary connection).
+func isHTTPReq(r *mockReq) bool {
+	var p struct {
+		IsHTTP bool `json:"isHttp"`
+	}
+	json.Unmarshal(r.payload, &p)
+	return p.IsHTTP
+}
+
+// withMeta adds a meta object with a status to a JSON answer; statuses outside 300..599 must be
+// ignored by the gateway, the others end the HTTP request at once (C17).
+func (g *gen) withMeta(r *mockReq, label string, data []byte) (string, []byte) {
+	if data == nil || len(data) < 2 || data[len(data)-1] != '}' || !isHTTPReq(r) || !g.r.chance(1, 4) {
+		return label, data
+	}
+	st := pick(g.r, []int{301, 302, 307, 399, 400, 401, 404, 418, 500, 503, 599, 200, 204, 299, 600, 99, 0, -1})
+	g.kinds["answer:meta-status"]++
+	sep := ","
+	if strings.TrimSpace(string(data[:len(data)-1])) == "{" {
+		sep = ""
+	}
+	out := append(append([]byte{}, data[:len(data)-1]...), []byte(fmt.Sprintf(`%s"meta":{"status":%d}}`, sep, st))...)
+	return fmt.Sprintf("%s|meta=%d", label, st), out
 }
 
 func (g *gen) silent() {
@@ -828,6 +894,61 @@ func (g *gen) limitRun() {
 	g.drain()
 }
 
+// orderRun: an add event hands a new resource R to the client while R's own references are still
+// loading; events on R published meanwhile are queued. When the tree is complete the add event (with
+// R's data) must reach the client before any of R's queued events, and those in publish order (C03).
+func (g *gen) orderRun() {
+	cs := g.liveClients()
+	if len(cs) == 0 {
+		return
+	}
+	c := cs[0]
+	w := g.w
+	g.kinds["order-run"]++
+	w.request(c, "subscribe.c.n", "")
+	g.drain()
+	trc := w.truth.get("c.n", "")
+	if trc == nil || trc.deleted || w.stall != "" {
+		return
+	}
+	child := pick(g.r, []string{"m.n1", "m.n2"})
+	idx := g.r.intn(len(trc.coll) + 1)
+	nc := append([]aval{}, trc.coll[:idx]...)
+	nc = append(nc, aval("r:"+child))
+	trc.coll = append(nc, trc.coll[idx:]...)
+	w.publish("event.c.n.add", fmt.Sprintf(`{"idx":%d,"value":{"rid":%q}}`, idx, child))
+	// answer the child's get: its own references start loading
+	for _, rq := range w.mq.outstanding() {
+		if rq.subject == "get."+child {
+			g.answerOne(rq, true)
+		}
+	}
+	// events on the child (and on the parent) while the grandchildren are loading
+	trn := w.truth.get(child, "")
+	for i, n := 0, 1+g.r.intn(3); i < n && trn != nil; i++ {
+		switch g.r.intn(3) {
+		case 0:
+			trn.seq++
+			w.publish("event."+child+".x", fmt.Sprintf(`{"seq":%d}`, trn.seq))
+		case 1:
+			ev, pl := g.mutate(trn, c)
+			w.publish("event."+child+"."+ev, pl)
+		default:
+			trc.seq++
+			w.publish("event.c.n.x", fmt.Sprintf(`{"seq":%d}`, trc.seq))
+		}
+	}
+	// the grandchildren arrive, newest request first
+	for round := 0; round < 8; round++ {
+		rs := w.mq.outstanding()
+		if len(rs) == 0 || w.stall != "" {
+			break
+		}
+		g.answerOne(rs[len(rs)-1], true)
+	}
+	g.drain()
+}
+
 // refBurst: one change event adds five uncached references to a model held by one connection.
 // All of them are loaded under the subscription's reference throttle: at no moment may more
 // than `limit` of their get requests be outstanding (C19), and all must eventually be sent.
@@ -930,6 +1051,9 @@ func runHistory(p profile, seed uint64, index int, keepSteps bool, wantSnap bool
 	g.connect()
 	if p.limitRunPct > 0 && int(r.next()%100) < p.limitRunPct {
 		g.limitRun()
+	}
+	if p.name == "order" && r.chance(1, 5) {
+		g.orderRun()
 	}
 	if p.name == "throttle" && cfg.referenceThrottle > 0 && r.chance(1, 4) {
 		g.refBurst(cfg.referenceThrottle)
